@@ -675,3 +675,78 @@ def judge_modes(prog, base, r, lines=None):
             return v, "%s:findall-duplicate-elements" % fam, d
         return v, "%s:findall-result-differs" % fam, d
     return v, klass, d
+
+
+# ---------------------------------------------------------------------------- acyclic stream + directed cases
+
+def gen_dag_program(rng):
+    """Acyclic (non-recursive) programs with shared subgoals and negation: a goal G with
+    several clauses is called positively, and later in the same body a negated goal whose
+    definition calls G again (the shape of seeded/C04: `q :- p, \\+ r.  r :- p, a.`).
+    Propositional or with one argument over a 2-element domain."""
+    fo = rng.random() < 0.4
+    dom = [1, 2]
+
+    def at(name):
+        return "%s(X)" % name if fo else name
+    L = ["d(%d)." % c for c in dom] if fo else []
+    nf = rng.randint(2, 5)
+    for i in range(nf):
+        if fo:
+            for c in dom:
+                L.append("%s::f%d(%d)." % (_p(rng), i, c))
+        else:
+            L.append("%s::f%d." % (_p(rng), i))
+    facts = ["f%d" % i for i in range(nf)]
+    n = rng.randint(3, 6)
+    bodies = {}
+    for i in range(n):
+        name = "g%d" % i
+        ncl = rng.choice([1, 2, 2, 3]) if i > 0 else rng.choice([2, 2, 3])
+        bodies[name] = []
+        for _ in range(ncl):
+            body = []
+            lower = ["g%d" % j for j in range(i)]
+            if i >= 2 and rng.random() < 0.6:
+                # G positively, then a negated goal that itself calls G
+                users = [(g, h) for h in lower for g in lower
+                         if g != h and any(g in b for b in bodies[h])]
+                if users:
+                    g, h = rng.choice(users)
+                    body = [g, "\\+" + h]
+            for _ in range(rng.choice([0, 1, 1, 2]) if body else rng.choice([1, 2, 2, 3])):
+                r = rng.random()
+                if r < 0.5 or not lower:
+                    lit = rng.choice(facts)
+                else:
+                    lit = rng.choice(lower)
+                if rng.random() < 0.25:
+                    lit = "\\+" + lit
+                if lit not in body and ("\\+" + lit) not in body and lit.replace("\\+", "") not in body:
+                    body.append(lit)
+            if rng.random() < 0.3:
+                rng.shuffle(body)
+            bodies[name].append([b.replace("\\+", "") for b in body])
+            L.append("%s :- %s%s." % (at(name), "d(X), " if fo else "",
+                                      ", ".join(("\\+ " + at(b[2:])) if b.startswith("\\+") else at(b) for b in body)))
+    qs = rng.sample(range(n), min(n, rng.choice([1, 2, 3])))
+    if n - 1 not in qs:
+        qs.append(n - 1)
+    for q in sorted(qs):
+        if fo:
+            L.append(rng.choice(["query(g%d(_))." % q, "query(g%d(1))." % q]))
+        else:
+            L.append("query(g%d)." % q)
+    return L, ["dag", "dag-fo" if fo else "dag-prop"]
+
+
+# the demo programs of seeded/C04 (acyclic; negated goal re-calls an earlier multi-clause goal)
+DIRECTED = [
+    ("wet-but-not-slippery", ["0.4::rain.", "0.3::sprinkler.", "0.2::covered.", "wet :- rain.", "wet :- sprinkler.",
+                              "slippery :- wet, \\+ covered.", "safe :- wet, \\+ slippery.", "query(safe)."]),
+    ("minimal", ["0.5::a.", "0.5::b.", "p :- a.", "p :- b.", "r :- p, a.", "q :- p, \\+ r.", "query(q)."]),
+    ("with-arguments", ["0.6::up(1).", "0.3::up(2).", "0.7::backup(1).", "0.5::backup(2).", "0.1::maint(1).", "0.2::maint(2).",
+                        "online(X) :- up(X).", "online(X) :- backup(X).", "degraded(X) :- online(X), maint(X).",
+                        "healthy(X) :- online(X), \\+ degraded(X).", "query(healthy(1)).", "query(healthy(2))."]),
+    ("control-no-negation", ["0.5::a.", "0.5::b.", "p :- a.", "p :- b.", "r :- p, a.", "q :- p, r.", "query(q)."]),
+]
